@@ -117,8 +117,12 @@ def generate(seed, batch):
             scen['impl'] = 'conecyl'
             scen['model'] = {
                 'kind': 'conecyl',
+                # every shell model that advertises linear buckling (the last four have no prescribed leading amplitudes)
                 'model': rng.choice(['clpt_donnell_bc1', 'clpt_donnell_bc2', 'clpt_donnell_bc3', 'clpt_donnell_bc4',
-                                     'clpt_sanders_bc1', 'fsdt_donnell_bc1', 'fsdt_donnell_bcn']),
+                                     'clpt_sanders_bc1', 'fsdt_donnell_bc1', 'fsdt_donnell_bcn',
+                                     'clpt_sanders_bc2', 'clpt_sanders_bc3', 'clpt_sanders_bc4', 'fsdt_donnell_bc2', 'fsdt_donnell_bc3',
+                                     'fsdt_donnell_bc4', 'iso_clpt_donnell_bc2', 'iso_clpt_donnell_bc3',
+                                     'clpt_geier1997_bc2', 'fsdt_geier1997_bc2', 'fsdt_shadmehri2012_bc2', 'fsdt_shadmehri2012_bc3']),
                 'm1': rng.randint(2, 8), 'm2': rng.randint(2, 4), 'n2': rng.randint(2, 4),
                 'alphadeg': rng.choice([0.0, 0.0, rng.uniform(1.0, 35.0)]),
                 'Fc': 10 ** rng.uniform(2, 6), 'r2': 250.0, 'H': rng.uniform(200., 800.),
@@ -232,9 +236,12 @@ def build_model_matrices(scen):
     cc.model = mo['model']
     cc.m1, cc.m2, cc.n2 = mo['m1'], mo['m2'], mo['n2']
     cc.alphadeg = mo['alphadeg']
-    cc.laminaprop = (123.55e3, 8.708e3, 0.319, 5.695e3, 5.695e3, 5.695e3)
-    cc.stack = mo['stack']
-    cc.plyt = 0.125
+    if mo['model'].startswith('iso_'):
+        cc.E11, cc.nu, cc.h = 70e3, 0.3, 1.2
+    else:
+        cc.laminaprop = (123.55e3, 8.708e3, 0.319, 5.695e3, 5.695e3, 5.695e3)
+        cc.stack = mo['stack']
+        cc.plyt = 0.125
     cc.r2 = mo['r2']
     cc.H = mo['H']
     cc.Fc = mo['Fc']
@@ -284,6 +291,9 @@ def call_impl(scen, K, KG, k, sparse, obj=None, tol=0):
             cc = obj
         cc.num_eigvalues = k
         cc.lb(tol=tol)
+        if obj is not None:
+            from compmech.conecyl import modelDB as _mdb
+            return cc.eigvals, cc.eigvecs, int(_mdb.db[cc.model]['num0'])   # leading amplitudes the model table declares
         return cc.eigvals, cc.eigvecs, 3
     raise HarnessError('impl ' + str(impl))
 
@@ -334,6 +344,14 @@ def check_result(scen, Kd, Gd, active, vals, vecs, pos, k, sparse, ref, log, res
         # too ill-conditioned for a meaningful comparison of values: only the residual (E1) is judged
         return pbound(mu) > 1e-4
     rtol.ill = ill
+
+    def pbound_scaled(mu, s_):
+        # the same pair with the geometric matrix multiplied by s_: the backward-error term is unchanged (nG and mu scale
+        # together), the transform term is that of the scaled multiplier mu*s_
+        return 1e-12 * (nG / max(abs(mu), 1e-300) + nK) / ref['lmin'] + \
+            (2e-15 * (nK / ref["lmin"]) * max(1.0, 1.0 / max(abs(mu * s_), 1e-300)) if sparse else 0.0)
+    rtol.scaled = lambda mu, s_: min(1e-4, max(1e-7, pbound(mu), pbound_scaled(mu, s_)))
+    rtol.ill_scaled = lambda mu, s_: max(pbound(mu), pbound_scaled(mu, s_)) > 1e-4
 
     for i in range(npairs):
         lam = vals[i]
@@ -447,8 +465,11 @@ def execute(scen):
                 bump(res['probes'], 'model_kind_' + scen['model']['kind'])
             else:
                 obj._calc_linear_matrices()
-                Kd = csr_matrix(obj.k0).toarray()[3:, 3:]
-                Gd = csr_matrix(obj.kG0).toarray()[3:, 3:]
+                from compmech.conecyl import modelDB as _mdb
+                n0_ = int(_mdb.db[obj.model]['num0'])
+                Kd = csr_matrix(obj.k0).toarray()[n0_:, n0_:]
+                Gd = csr_matrix(obj.kG0).toarray()[n0_:, n0_:]
+                bump(res['probes'], 'shell_model_leading_amplitudes_%d' % n0_)
             active = np.where(np.abs(Kd).sum(axis=0) != 0)[0]
             if np.abs(Kd - Kd.T).max() > 1e-12 * np.abs(Kd).max() or np.abs(Gd - Gd.T).max() > 1e-12 * max(np.abs(Gd).max(), 1e-300):
                 # the pair a package model hands to its own buckling analysis must be symmetric
@@ -589,8 +610,10 @@ def execute(scen):
             else:
                 kk = min(k, len(lam_pos), len(v3))
                 from .eig import compare_sorted_with_multiplicity
-                st3, info3 = compare_sorted_with_multiplicity(v3[:kk] * ms, lam_pos, lambda x: max(1e-6, 10 * rtol(-1.0 / x)))
-                if st3 == 'wrong' and not any(rtol.ill(-1.0 / x) for x in lam_pos[:kk]):
+                # (tolerance: the larger of the two problems' bounds - with ms < 1 the second panel's multipliers are farther
+                # from the fixed shift and less well resolved than the first one's)
+                st3, info3 = compare_sorted_with_multiplicity(v3[:kk] * ms, lam_pos, lambda x: max(1e-6, 10 * rtol.scaled(-1.0 / x, ms)))
+                if st3 == 'wrong' and not any(rtol.ill_scaled(-1.0 / x, ms) for x in lam_pos[:kk]):
                     raise Violation('E5-scaling', dict(info3, s=ms, why='a panel with the reference load scaled by s does not have multipliers divided by s',
                                                        scaled_times_s=(v3[:4] * ms).tolist(), base=lam_pos[:4].tolist()))
                 bump(res['probes'], 'E5_model_checked')
